@@ -35,6 +35,10 @@ def run(ctx, rep, tier):
     from . import c10, c04
     for cfg in CONFIGS:
         c10.rectification(c04._Ren(rep, 'C10.R4', 'C02.R8'), ctx.facts(cfg), '' if cfg == 'default' else '[%s]' % cfg)
+    # the certificate handed back refers to the user's rows: presolve reversal fills s from s, z from z (C09.R3 re-run)
+    from . import c09
+    for cfg in CONFIGS:
+        c09.reversal(c04._Ren(rep, 'C09.R3', 'C02.R9'), ctx.facts(cfg), '' if cfg == 'default' else '[%s]' % cfg)
     from . import primitives
     primitives.vector_primitives(rep, ctx.facts('default'), ctx.eff('default'), '', 'C02.R7')
 
